@@ -123,9 +123,9 @@ Definition end_call (x : cstate) (es : list event) : cstate :=
 Definition go_on (x : cstate) (es : list event) (o : ost) : cstate :=
   {| todo := todo x; cur_ := Open o; acc := acc x ++ es; tr := tr x |}.
 
-(* opening a stream = the first half of M_Wire.pipe_stream *)
+(* opening a stream = the first half of M_Wire.pipe_stream_for (exchange method iff not a producer) *)
 Definition open_call (x : cstate) (sp : stream_prog) (h prod : bool) (c : cb) (a : after) (n : option nat) : cstate :=
-  let '(q0, alive) := srv_init sp h in
+  let '(q0, alive) := srv_init_for (negb prod) sp h in
   let mk q := {| o_prod := prod; o_c := c; o_a := a; o_alive := alive; o_sts := steps sp; o_n := n; o_q := q |} in
   if h then
     let '(es, o, r) := cli_read c q0 in
@@ -165,8 +165,9 @@ Definition cstep (x : cstate) : cstate :=
   end.
 
 Definition cfin (x : cstate) : bool := match cur_ x, todo x with Idle, [] => true | _, _ => false end.
-(* serve() raising in the middle of a connection: every exception of a call is answered on the wire and serve_one
-   returns (see M_Wire.srv_init / srv_tick), so no step of this machine loses its server side.  The generic system
+(* serve() raising in the middle of a connection: every exception of a call -- a non-Stream result and a missing
+   declared header included (M_Wire.init_outcome, repo 735475d) -- is answered on the wire and serve_one returns,
+   so no step of this machine loses its server side.  The generic system
    and its theorems cover machines that do ([lost]); the _handle try/finally path is exercised on the real server by
    a fault injected around serve(). *)
 Definition clost (x : cstate) : bool := false.
